@@ -26,6 +26,7 @@
 EXTENDS Sdl, Json
 
 NoSlices == <<>>
+NoQuants(tag) == {}
 
 Rec == ndJsonDeserialize("trace.ndjson")
 
